@@ -506,6 +506,8 @@ func runC14(c *Ctx) {
 	c14CloseOnce(c, stPkgs)
 	c11ArchiveLastWins(c)
 	c13ViewWrapsArgument(c)
+	c14SymlinkFullyResolved(c)
+	c13UntrustedNames(c)
 	ruleDelegateErr(c, "DELEGATE-ERR", stPkgs)
 	if q := c.P.Pkg("private/pkg/storage"); q != nil {
 		c14MatcherNamesake(c, q)
